@@ -98,6 +98,9 @@ Fixpoint emit_seg (dot first : bool) (ts : list tok) : rx :=
   | TStar :: r =>
       XCat (if first then XCat xNeedChar (XCat xNoDir (if dot then xPathStar else xStarNoDot)) else xPathStar)
            (emit_seg dot false r)
+  | TBr neg l :: r =>
+      XCat (if first then XCat xNoDir (if dot then xNoSlash else xNoSlashDot) else xNoSlash)
+           (XCat (if neg then XNSet l else XSet l) (emit_seg dot false r))
   end.
 
 Fixpoint emit_path (dot : bool) (segs : list (list tok)) : rx :=
@@ -120,6 +123,8 @@ Fixpoint DenSeg (dot first : bool) (ts : list tok) (s : str) : Prop :=
   | TStar :: r => exists a s', s = a ++ s' /\ ~ In 47 a /\
                                (first = true -> s <> [] /\ ~ dotdir s /\ (dot = false -> forall y, a <> 46 :: y)) /\
                                DenSeg dot false r s'
+  | TBr neg l :: r => exists x s', s = x :: s' /\ x <> 47 /\ (if neg then ~ In x l else In x l) /\
+                                   (first = true -> ~ dotdir s /\ (dot = false -> x <> 46)) /\ DenSeg dot false r s'
   end.
 
 Definition slashes (s : str) : Prop := forall x, In x s -> x = 47.
@@ -246,15 +251,17 @@ Fixpoint pwf (ts : list tok) : bool :=
   | TEsc c :: r => escapable c && pwf r
   | TQ :: r => pwf r
   | TStar :: r => match r with TStar :: _ => false | _ => pwf r end
+  | TBr neg l :: r => forallb setplain l && negb (match l with [] => true | _ => false end) && pwf r
   end.
 
 Lemma pwf_tail t ts : pwf (t :: ts) = true -> pwf ts = true.
 Proof.
-  destruct t as [c|c| |]; cbn [pwf]; intros H.
+  destruct t as [c|c| | |neg l]; cbn [pwf]; intros H.
   - apply andb_true_iff in H. apply H.
   - apply andb_true_iff in H. apply H.
   - exact H.
-  - destruct ts as [|[c|c| | ] ts']; try exact H; try discriminate.
+  - destruct ts as [|[c|c| | |neg l] ts']; try exact H; try discriminate.
+  - apply andb_true_iff in H. apply H.
 Qed.
 
 Lemma notin_cons (x : ch) s : x <> 47 -> ~ In 47 s -> ~ In 47 (x :: s).
@@ -266,6 +273,54 @@ Proof. intros A B H. apply in_app_or in H. destruct H; [apply A|apply B]; assump
 Lemma nonl_tail (a b : str) : nonl (a ++ b) -> nonl b.
 Proof. intros H X0. apply H. apply in_or_app. right. exact X0. Qed.
 
+(* a guarded one-character atom (`?` or a bracket) at the head of a segment *)
+Lemma seg_one_char (dot first : bool) (a E : rx) (P : ch -> Prop) (DE : str -> Prop) (s rest : str) :
+  (forall s0 r0, X a s0 r0 <-> exists x, s0 = [x] /\ P x) ->
+  seg_ok rest -> nonl (s ++ rest) ->
+  (forall s4, nonl (s4 ++ rest) -> (X E s4 rest <-> (~ In 47 s4 /\ DE s4))) ->
+  (X (XCat (if first then XCat xNoDir (if dot then xNoSlash else xNoSlashDot) else xNoSlash) (XCat a E)) s rest <->
+   (~ In 47 s /\ exists x s', s = x :: s' /\ x <> 47 /\ P x /\ (first = true -> ~ dotdir s /\ (dot = false -> x <> 46)) /\ DE s')).
+Proof.
+  intros Ha Ok Hn HEiff. split.
+  - intros H. cbn [X] in H. destruct H as [s1 [s2 [-> [HG [s3 [s4 [-> [HA HE]]]]]]]].
+    apply Ha in HA. destruct HA as [x [-> Px]].
+    assert (Hn4 : nonl (s4 ++ rest)).
+    { intros X0. apply Hn. apply in_or_app. destruct (in_app_or _ _ _ X0) as [A|A]; [left|right; exact A].
+      apply in_or_app. right. right. exact A. }
+    apply (HEiff s4 Hn4) in HE. destruct HE as [H4 HD].
+    destruct first.
+    + destruct HG as [g1 [g2 [-> [HN HG2]]]].
+      assert (g2 = [] /\ (forall y, ([x] ++ s4) ++ rest <> 47 :: y) /\ (dot = false -> forall y, ([x] ++ s4) ++ rest <> 46 :: y)).
+      { destruct dot.
+        - apply noslash_iff in HG2. destruct HG2 as [-> HG2]. split; [reflexivity|]. split; [exact HG2|discriminate].
+        - apply noslashdot_iff in HG2. destruct HG2 as [-> HG2]. split; [reflexivity|]. split; [intros y; apply HG2|intros _ y; apply HG2]. }
+      destruct H as [-> [Hx47 Hx46]].
+      unfold xNoDir in HN. pose proof HN as HN'. cbn [X] in HN'. destruct HN' as [-> _]. cbn [app] in *.
+      assert (Hs : ~ In 47 (x :: s4)).
+      { apply notin_cons; [|exact H4]. intros ->. apply (Hx47 (s4 ++ rest)). reflexivity. }
+      split; [exact Hs|]. exists x, s4. split; [reflexivity|]. split; [intros ->; apply (Hx47 (s4 ++ rest)); reflexivity|].
+      split; [exact Px|]. split; [|exact HD]. intros _. split.
+      * apply (nodir_iff (x :: s4) rest Hs Ok Hn). exact HN.
+      * intros Hd ->. apply (Hx46 Hd (s4 ++ rest)). reflexivity.
+    + apply noslash_iff in HG. destruct HG as [-> HG]. cbn [app] in *.
+      assert (Hx : x <> 47) by (intros ->; apply (HG (s4 ++ rest)); reflexivity).
+      split; [apply notin_cons; assumption|]. exists x, s4. split; [reflexivity|]. split; [exact Hx|]. split; [exact Px|]. split; [discriminate|exact HD].
+  - intros [Hs [x [s' [-> [Hx [Px [Hf HD]]]]]]].
+    assert (Hs' : ~ In 47 s') by (intros X0; apply Hs; right; exact X0).
+    assert (HE : X E s' rest).
+    { apply HEiff; [eapply (nonl_tail [x]); exact Hn|]. split; assumption. }
+    cbn [X]. exists [], (x :: s'). split; [reflexivity|]. split.
+    + destruct first.
+      * destruct (Hf eq_refl) as [Hnd Hdot]. exists [], []. split; [reflexivity|]. split.
+        -- apply (nodir_iff (x :: s') rest Hs Ok Hn). exact Hnd.
+        -- destruct dot.
+           ++ apply noslash_iff. split; [reflexivity|]. intros y E0. cbn in E0. inversion E0. contradiction.
+           ++ apply noslashdot_iff. split; [reflexivity|]. intros y. split; intros E0; cbn in E0; inversion E0; [contradiction|].
+              apply (Hdot eq_refl). assumption.
+      * apply noslash_iff. split; [reflexivity|]. intros y E0. cbn in E0. inversion E0. contradiction.
+    + exists [x], s'. split; [reflexivity|]. split; [apply Ha; exists x; split; [reflexivity|exact Px]|exact HE].
+Qed.
+
 Theorem seg_equiv dot : forall ts first s rest,
   pwf ts = true -> seg_ok rest -> nonl (s ++ rest) ->
   (X (emit_seg dot first ts) s rest <-> (~ In 47 s /\ DenSeg dot first ts s)).
@@ -273,7 +328,7 @@ Proof.
   induction ts as [|t ts IH]; intros first s rest W Ok Hn.
   - cbn. split; [intros ->; split; [intros []|reflexivity]|intros [_ ->]; reflexivity].
   - pose proof (pwf_tail _ _ W) as W'.
-    destruct t as [c|c| |].
+    destruct t as [c|c| | |neg l].
     + cbn [pwf] in W. apply andb_true_iff in W. destruct W as [W _]. apply andb_true_iff in W. destruct W as [_ Wc].
       apply negb_true_iff in Wc. apply N.eqb_neq in Wc.
       cbn [emit_seg X DenSeg]. split.
@@ -370,6 +425,15 @@ Proof.
                  --- unfold xPathStar. cbn [X]. apply star_nset_iff. exact Ha.
                  --- apply starnodot_iff. split; [exact Ha|apply Hdot; reflexivity].
         -- unfold xPathStar. cbn [X]. apply star_nset_iff. exact Ha.
+    + (* bracket *)
+      cbn [emit_seg DenSeg].
+      rewrite (seg_one_char dot first (if neg then XNSet l else XSet l) (emit_seg dot false ts)
+                            (fun x => if neg then ~ In x l else In x l) (DenSeg dot false ts) s rest).
+      * reflexivity.
+      * intros s0 r0. destruct neg; cbn [X]; reflexivity.
+      * exact Ok.
+      * exact Hn.
+      * intros s4 Hn4. apply IH; [exact W'|exact Ok|exact Hn4].
 Qed.
 
 Lemma sep_iff sl rest : X xSep sl rest <-> sl <> [] /\ slashes sl.
@@ -538,6 +602,60 @@ Section PathText.
     rewrite handle_star_path by assumption. reflexivity.
   Qed.
 
+  (* brackets over plain members in path mode: the same guards as `?` *)
+  Definition pbr_guard (st : pst) : str :=
+    if after_start st then xprint xNoDir ++ (if c_dot cf then xprint xNoSlash else xprint xNoSlashDot) else xprint xNoSlash.
+
+  Lemma sequence_plain_path st i (neg : bool) (l : list ch) r :
+    forallb setplain l = true -> l <> [] ->
+    sequence cf st {| idx := i; rest := (if neg then [33%N] else []) ++ l ++ 93%N :: r |} =
+    Ok (pbr_guard st ++ br_text neg l, reset_dir_track st,
+        {| idx := i + (if neg then 1 else 0) + Z.of_nat (length l) + 1; rest := r |}).
+  Proof.
+    intros Hp Hne. destruct l as [|c l]; [contradiction|].
+    pose proof Hp as Hp0. cbn [forallb] in Hp. apply andb_true_iff in Hp. destruct Hp as [Hc Hl].
+    destruct (setplain_facts c Hc) as [A [B [C [D [E [F [G _]]]]]]].
+    unfold sequence, pbr_guard. destruct neg; cbn [app next rest idx].
+    - change (N.eqb 33%N cEX) with true. cbn [orb]. cbn [next rest idx].
+      rewrite C, B, A. cbn [orb rest].
+      pose proof (seq_loop_plain cf l (S (length (l ++ 93%N :: r))) st c (i + 1 + 1) r [[cHAT]; [cLB]] (-1) Hp0
+                   ltac:(rewrite app_length; cbn [length]; lia)) as Q.
+      match goal with |- context [seq_loop ?a ?b ?c0 ?d ?e ?f0 ?g ?h ?i0 ?j] =>
+        replace (seq_loop a b c0 d e f0 g h i0 j) with
+          (@Ok (list str * iter * bool) (rev (map (fun x => [x]) (c :: l)) ++ [[cHAT]; [cLB]], {| idx := i + 1 + 1 + Z.of_nat (length l) + 1; rest := r |}, false))
+          by (symmetry; exact Q) end.
+      rewrite Hpath. cbn [orb]. rewrite concat_rev_build.
+      unfold restrict_sequence. rewrite Hpath, Hnodir, Hseq, Hseqdot.
+      destruct (after_start st); destruct (c_dot cf); cbn [andb negb];
+        match goal with |- Ok (_, _, {| idx := ?x; rest := _ |}) = Ok (_, _, {| idx := ?y; rest := _ |}) =>
+          replace x with y by (cbn [length]; rewrite ?Nat2Z.inj_succ; lia); reflexivity end.
+    - rewrite F, G. cbn [orb]. rewrite C, B, A. cbn [orb rest].
+      pose proof (seq_loop_plain cf l (S (length (l ++ 93%N :: r))) st c (i + 1) r [[cLB]] (-1) Hp0
+                   ltac:(rewrite app_length; cbn [length]; lia)) as Q.
+      match goal with |- context [seq_loop ?a ?b ?c0 ?d ?e ?f0 ?g ?h ?i0 ?j] =>
+        replace (seq_loop a b c0 d e f0 g h i0 j) with
+          (@Ok (list str * iter * bool) (rev (map (fun x => [x]) (c :: l)) ++ [[cLB]], {| idx := i + 1 + Z.of_nat (length l) + 1; rest := r |}, false))
+          by (symmetry; exact Q) end.
+      rewrite Hpath. cbn [orb]. rewrite concat_rev_build.
+      unfold restrict_sequence. rewrite Hpath, Hnodir, Hseq, Hseqdot.
+      destruct (after_start st); destruct (c_dot cf); cbn [andb negb];
+        match goal with |- Ok (_, _, {| idx := ?x; rest := _ |}) = Ok (_, _, {| idx := ?y; rest := _ |}) =>
+          replace x with y by (cbn [length]; rewrite ?Nat2Z.inj_succ; lia); reflexivity end.
+  Qed.
+
+  Lemma pstep_br f st i (neg : bool) (l : list ch) r cur :
+    forallb setplain l = true -> l <> [] ->
+    root_loop (S f) cf st {| idx := i; rest := 91%N :: (if neg then [33%N] else []) ++ l ++ 93%N :: r |} cur =
+    root_loop f cf (update_dir_state (reset_dir_track st))
+              {| idx := i + 1 + (if neg then 1 else 0) + Z.of_nat (length l) + 1; rest := r |}
+              (T (pbr_guard st ++ br_text neg l) :: cur).
+  Proof.
+    intros Hp Hne. cbn [root_loop next rest idx]. rewrite Hext. cbn [andb].
+    change (N.eqb 91%N cDOT) with false. change (N.eqb 91%N cSTAR) with false. change (N.eqb 91%N cQM) with false.
+    change (N.eqb 91%N cSL) with false. change (N.eqb 91%N cBS) with false. change (N.eqb 91%N cLB) with true. cbv iota.
+    rewrite (sequence_plain_path st (i + 1) neg l r Hp Hne). reflexivity.
+  Qed.
+
   Lemma skip_slashes_noslash r i : (match r with c :: _ => negb (N.eqb c 47) | [] => true end) = true ->
     skip_slashes r i = {| idx := i; rest := r |}.
   Proof. destruct r as [|c r]; intros H; [reflexivity|]. cbn. unfold cSL. apply negb_true_iff in H. rewrite H. reflexivity. Qed.
@@ -561,7 +679,7 @@ Section PathText.
   Lemma punparse_head t ts tail : pwf (t :: ts) = true -> tail_ok tail = true ->
     (match unparse (t :: ts) ++ tail with c :: _ => negb (N.eqb c 47) | [] => true end) = true.
   Proof.
-    intros W _. destruct t as [c|c| |]; cbn in *; try reflexivity.
+    intros W _. destruct t as [c|c| | |neg l]; cbn in *; try reflexivity.
     apply andb_true_iff in W. destruct W as [W _]. apply andb_true_iff in W. destruct W as [_ W]. exact W.
   Qed.
 
@@ -571,7 +689,7 @@ Section PathText.
   Proof.
     intros W Ht Hs. destruct ts as [|t ts'].
     - cbn. destruct tail as [|c tl]; [reflexivity|]. cbn in Ht. apply N.eqb_eq in Ht. subst c. reflexivity.
-    - destruct t as [c|c| |]; cbn in *; try reflexivity; [|discriminate].
+    - destruct t as [c|c| | |neg l]; cbn in *; try reflexivity; [|discriminate].
       apply andb_true_iff in W. destruct W as [W _]. apply andb_true_iff in W. destruct W as [W _].
       unfold plain, ch_in in W. cbn [existsb] in W. apply negb_true_iff in W. apply orb_false_iff in W. destruct W as [W _]. rewrite W. reflexivity.
   Qed.
@@ -589,7 +707,7 @@ Section PathText.
     - exists fuel, st, i, cur. split; [cbn; lia|]. split; [reflexivity|]. split; [cbn; rewrite app_nil_r; reflexivity|exact I2].
     - pose proof (pwf_tail _ _ W) as W'.
       change (unparse (t :: ts)) with (unparse1 t ++ unparse ts) in *. rewrite app_length in Hf. rewrite <- app_assoc.
-      destruct t as [c|c| |].
+      destruct t as [c|c| | |neg l].
       + cbn [unparse1 app length] in *. destruct fuel as [|f]; [lia|].
         cbn [pwf] in W. apply andb_true_iff in W. destruct W as [W _]. apply andb_true_iff in W. destruct W as [Wp Wc].
         apply negb_true_iff in Wc. apply N.eqb_neq in Wc.
@@ -620,13 +738,30 @@ Section PathText.
         * destruct ts; exact K.
       + cbn [unparse1 app length] in *. destruct fuel as [|f]; [lia|].
         assert (Hh : (match unparse ts ++ tail with c :: _ => negb (N.eqb c 42) | [] => true end) = true).
-        { apply head_not_star_tail; [exact W'|exact Ht|]. cbn [pwf] in W. destruct ts as [|[ | | | ] ts']; try reflexivity. discriminate. }
+        { apply head_not_star_tail; [exact W'|exact Ht|]. cbn [pwf] in W. destruct ts as [|[c2|c2| | |neg2 l2] ts']; try reflexivity. discriminate. }
         rewrite pstep_star; [|exact Hh].
         destruct (IH f (update_dir_state (reset_dir_track st)) (i + 1) (T (pstar_text st) :: cur) false tail W' Ht ltac:(lia) (inv3_update_reset _ _ I2))
           as [f' [st' [i' [cur' [Hf' [E [J K]]]]]]].
         exists f', st', i', cur'. split; [lia|]. split; [exact E|]. split.
         * rewrite J, jrev_cons. destruct I2 as [_ [_ Ha]]. unfold pstar_text. rewrite Ha. cbn [emit_seg xprint].
           destruct first; destruct (c_dot cf); cbn [xprint]; rewrite <- ?app_assoc; reflexivity.
+        * destruct ts; exact K.
+      + cbn [pwf] in W. apply andb_true_iff in W. destruct W as [W _]. apply andb_true_iff in W. destruct W as [Wl Wn].
+        assert (Hne : l <> []) by (destruct l; [discriminate|discriminate]).
+        assert (HL : (length l + 2 <= length (unparse1 (TBr neg l)))%nat).
+        { cbn [unparse1]. rewrite !app_length. cbn [length]. lia. }
+        destruct fuel as [|f]; [lia|].
+        cbn [unparse1]. rewrite <- !app_assoc. cbn [app].
+        pose proof (pstep_br f st i neg l (unparse ts ++ tail) cur Wl Hne) as Q.
+        destruct (IH f (update_dir_state (reset_dir_track st)) (i + 1 + (if neg then 1 else 0) + Z.of_nat (length l) + 1)
+                     (T (pbr_guard st ++ br_text neg l) :: cur) false tail W' Ht ltac:(lia) (inv3_update_reset _ _ I2))
+          as [f' [st' [i' [cur' [Hf' [E [J K]]]]]]].
+        assert (HG : forall Y : str, length (91%N :: (if neg then [33%N] else []) ++ l ++ 93%N :: Y) =
+                                     (length (unparse1 (TBr neg l)) + length Y)%nat).
+        { intros Y. cbn [unparse1 length]. rewrite ?app_length. cbn [length]. rewrite ?app_length. cbn [length]. cbv delta [ch str] in *. destruct neg; cbn [length]; lia. }
+        exists f', st', i', cur'. split; [rewrite HG; lia|]. split; [eapply eq_trans; [exact Q|exact E]|]. split.
+        * rewrite J, jrev_cons. destruct I2 as [_ [_ Ha]]. unfold pbr_guard. rewrite Ha. cbn [emit_seg xprint].
+          destruct first; destruct (c_dot cf); destruct neg; unfold br_text; cbn [xprint]; rewrite <- ?app_assoc; reflexivity.
         * destruct ts; exact K.
   Qed.
 
@@ -694,8 +829,9 @@ Proof.
   destruct segs as [|sg rest]; [discriminate|]. inversion W as [|? ? Wsg _]; subst.
   apply andb_true_iff in Wsg. destruct Wsg as [Wp Wn]. destruct sg as [|t ts]; [discriminate|].
   destruct rest as [|sg2 rest'].
-  - cbn [punparse] in E. destruct t as [c|c| |]; cbn [unparse flat_map unparse1 app] in E.
+  - cbn [punparse] in E. destruct t as [c|c| | |neg l]; cbn [unparse flat_map unparse1 app] in E.
     + inversion E; subst. cbn [pwf] in Wp. discriminate.
+    + inversion E.
     + inversion E.
     + inversion E.
     + inversion E.
@@ -798,7 +934,7 @@ Corollary hidden_piece_needs_written_dot ts (s' : str) :
   (exists r, ts = TLit 46%N :: r) \/ (exists c r, ts = TEsc c :: r /\ c = 46%N) \/
   (exists r, ts = TStar :: r /\ DenSeg false false r (46%N :: s')).
 Proof.
-  destruct ts as [|t r]; cbn [DenSeg]; [discriminate|]. destruct t as [c|c| |].
+  destruct ts as [|t r]; cbn [DenSeg]; [discriminate|]. destruct t as [c|c| | |neg l].
   - intros [s0 [E _]]. inversion E; subst. left. eexists. reflexivity.
   - intros [s0 [E _]]. inversion E; subst. right. left. exists 46%N, r. split; reflexivity.
   - intros [x [s0 [E [_ [Hf _]]]]]. inversion E; subst. destruct (Hf eq_refl) as [_ Hd]. exfalso. apply (Hd eq_refl). reflexivity.
@@ -806,9 +942,15 @@ Proof.
     destruct a as [|y a'].
     + cbn in E. subst s0. right. right. exists r. split; [reflexivity|exact HD].
     + cbn in E. inversion E; subst. exfalso. apply (Hd eq_refl a'). reflexivity.
+  - intros [x [s0 [E [_ [_ [Hf _]]]]]]. inversion E; subst. destruct (Hf eq_refl) as [_ Hd]. exfalso. apply (Hd eq_refl). reflexivity.
 Qed.
 
 Example path_example_text :
   wcparse linux PATHNAME false (punparse [[TLit 97%N; TQ]; [TStar; TLit 98%N]]) =
   inl (S_ "^(?s:a(?![/]).[/]+(?=[^/])(?!(?:\.{1,2})(?:$|[/]))(?:(?!\.)[^/]*?)?b[/]*?)$").
+Proof. vm_compute. reflexivity. Qed.
+
+Example path_bracket_example_text :
+  wcparse linux PATHNAME false (punparse [[TLit 97%N; TBr true [98%N]]; [TBr false [120%N; 121%N]]]) =
+  inl (S_ "^(?s:a(?![/])[^b][/]+(?!(?:\.{1,2})(?:$|[/]))(?![/.])[xy][/]*?)$").
 Proof. vm_compute. reflexivity. Qed.
